@@ -4,7 +4,7 @@ CONSTANTS
   Procs = {1, 2}
   Prog <- P2
   MaxNodes = 4
-  TailSkip = FALSE
+  TailSkip = TRUE
   NoValidate = FALSE
 INVARIANT LinOK
 INVARIANT StructureOK
